@@ -104,6 +104,9 @@ func runC05(r *Run) {
 		ks = []pfrac{a, b}
 	}
 	names := []string{"a", "b"}
+	// the limit argument of the partition constructor (a starting value the strategy overrides): 1, or sized like the
+	// strategy / the estimate
+	partCtorLimit := int32([]int{1, 1, maxInt(1, stratInit), maxInt(1, initial)}[t.Intn(4, "partition-ctor-limit")])
 	addLater := (kind == "lookup" || kind == "predicate") && t.Chance(50, "add-partition-later")
 	kc := pfrac{1 + t.Intn(4, "k-added"), 32}
 	addAfter := time.Duration(t.Intn(6, "add-after")) * time.Nanosecond
@@ -118,7 +121,7 @@ func runC05(r *Run) {
 	case "lookup":
 		parts := map[string]*strategy.LookupPartition{}
 		for i, n := range names {
-			parts[n] = strategy.NewLookupPartitionWithMetricRegistry(n, ks[i].float(), 1, reg)
+			parts[n] = strategy.NewLookupPartitionWithMetricRegistry(n, ks[i].float(), partCtorLimit, reg)
 		}
 		lookup, _ = strategy.NewLookupPartitionStrategyWithMetricRegistry(parts, nil, int32(stratInit), reg)
 		strat = lookup
